@@ -15,7 +15,7 @@ CONSTANTS
   Depth = 60
   EmitEvery = 20
   Faults = {}
-  WithBind = FALSE
+  WithBind = TRUE
   AdvMsgs <- AdvSetS
   MaxAdv = 12
   MaxNow = 0
